@@ -220,6 +220,45 @@ def r2_components(ctx, g, handlers):
             oka = oka and len(pitch) == 1 and len(dur) == 1
     ctx.check(oka and n_alt > 0, 'R2', en.loc, en.qualname, 'alteration-captured',
               'a note keeps its duration, its pitch and - when written - its accidental as an ALTERATION sub-token with the text as written')
+    # barline: the text of the token is assembled from the cell's own pieces, never replaced by another spelling
+    eb0 = handlers.get('barline', {}).get('exit')
+    if eb0 is not None:
+        seq = g.sequence_rules('barline')
+        eq_mandatory = bool(seq) and seq[0][0] == 'EQUAL' and seq[0][1] in ('', '+')
+        bad_lits, n_tok = set(), 0
+        for sp in symex.func_sym_paths(eb0):
+            tests = {src(n_): t for n_, t in sp.conds}
+            if eq_mandatory and tests.get('ctx.EQUAL(0)') is False:
+                continue            # the grammar starts every barline with '=': this path is never taken
+            made = [e.expr for e in sp.events if e.kind in ('store', 'assign') and isinstance(e.expr, ast.Call) and F.is_name(e.expr.func, 'BarToken')
+                    and e.expr.args]
+            if not made:
+                continue
+            parts = F.text_parts(made[-1].args[0])
+            # a comparison of the assembled text with a spelling that cannot match its literal beginning is decided
+            feasible = True
+            for n_, t in sp.conds:
+                if isinstance(n_, ast.Compare) and len(n_.ops) == 1 and isinstance(n_.ops[0], (ast.Eq, ast.NotEq)) \
+                        and isinstance(n_.comparators[0], ast.Constant) and isinstance(n_.comparators[0].value, str):
+                    lp = F.text_parts(n_.left)
+                    k = n_.comparators[0].value
+                    if lp and lp[0][0] == 'lit':
+                        lead = lp[0][1]
+                        can_equal = k.startswith(lead) if len(lp) > 1 else k == lead
+                        if not can_equal and (isinstance(n_.ops[0], ast.Eq)) == t:
+                            feasible = False
+            if not feasible:
+                continue
+            n_tok += 1
+            for kind, text in parts:
+                if kind == 'lit' and text not in ('=', '=='):
+                    bad_lits.add(text)
+                if kind == 'expr' and not (text.startswith('ctx.') and text.endswith('.getText()')):
+                    bad_lits.add(text[:40])
+        ctx.check(not bad_lits and n_tok > 0, 'R2', eb0.loc, eb0.qualname, 'barline-text-rewritten',
+                  f'on every path the grammar allows, the barline text is "=" / "==" followed by pieces of the cell as written ({n_tok} paths)',
+                  f'the barline token can receive the text {sorted(bad_lits)[:3]} that is not a piece of the cell: a barline type is '
+                  f'silently replaced by another spelling on export')
     # barline: pieces kept
     eb = handlers.get('barline', {}).get('exit')
     if eb is None:
